@@ -190,9 +190,8 @@ def run_shard(histories, tier, sub_seed):
     return res
 
 
+REPLAY_BY_RERUN = True     # (see runner.run_property: the recorded tier / seed workload is re-executed)
+
+
 def replay(witness):
-    res = ShardResult()
-    print(witness)
-    res.evaluations = 1
-    res.inconclusive.append("C19 witnesses are self-describing (history, subject, content, validation); re-run the check to reproduce")
-    return res
+    raise NotImplementedError("replayed by re-running the recorded workload")
